@@ -603,6 +603,48 @@ func ruleP7e(c *Ctx) {
 					}
 				}
 			}
+			// the argument is Join(S, …) with S = F[k:] (or F itself), F = strings.Fields(line): blank-free
+			// words, so the joined text is non-empty exactly when S has an element:
+			// len(S) > 0, len(S) >= 1, len(S) != 0, len(F) > c with c >= k
+			if jc, ok := arg.(*ssa.Call); ok && calleeName(&jc.Call) == "strings.Join" {
+				S := jc.Call.Args[0]
+				base, low := S, int64(0)
+				if sl, ok := S.(*ssa.Slice); ok && sl.High == nil && sl.Max == nil {
+					base = sl.X
+					if sl.Low != nil {
+						if k, ok := sl.Low.(*ssa.Const); ok && isIntConst(k) {
+							low = k.Int64()
+						} else {
+							base = nil
+						}
+					}
+				}
+				if fc, ok := base.(*ssa.Call); ok && calleeName(&fc.Call) == "strings.Fields" {
+					if call, ok := bo.X.(*ssa.Call); ok {
+						if bi, ok := call.Call.Value.(*ssa.Builtin); ok && bi.Name() == "len" {
+							if k, ok := bo.Y.(*ssa.Const); ok && isIntConst(k) {
+								need := int64(-1) // the least length the true branch guarantees
+								switch bo.Op {
+								case token.GTR:
+									need = k.Int64() + 1
+								case token.GEQ:
+									need = k.Int64()
+								case token.NEQ:
+									if k.Int64() == 0 {
+										need = 1
+									}
+								}
+								if call.Call.Args[0] == S && need >= 1 {
+									guarded = true
+								}
+								if call.Call.Args[0] == base && need >= low+1 {
+									guarded = true
+								}
+							}
+						}
+					}
+				}
+			}
 			// arg != ""  /  len(arg) > 0
 			if bo.Op == token.NEQ && (bo.X == arg || bo.Y == arg) {
 				if k, ok := bo.Y.(*ssa.Const); ok && k.Value != nil && k.Value.Kind() == constant.String && constant.StringVal(k.Value) == "" {
